@@ -51,8 +51,15 @@ def base_program(rng):
         elif k < 0.9 and lists:
             L.append(f"v{n} = sum({rng.choice(lists)})")
             ints.append(f"v{n}")
-        elif k < 0.94:
+        elif k < 0.91:
             L.append(f"v{n} = {rng.choice(['-', '+'])}{a}")
+            ints.append(f"v{n}")
+        elif k < 0.96:
+            # nested lists whose rows differ in secrecy / constness, then reads through them
+            rows = [[rng.choice(ints) for _ in range(rng.randint(1, 2))] for _ in range(rng.randint(2, 3))]
+            L.append(f"m{n} = [" + ", ".join("[" + ", ".join(r) + "]" for r in rows) + "]")
+            i = rng.randrange(len(rows))
+            L.append(rng.choice([f"v{n} = sum(m{n}[{i}])", f"v{n} = m{n}[{i}][0]", f"v{n} = m{n}[{i}][0] + {a}"]))
             ints.append(f"v{n}")
         else:
             L.append(f"n{n} = {rng.randint(0, 9)} {rng.choice(['+', '-', '*'])} {rng.randint(0, 9)}")
@@ -89,7 +96,10 @@ STMT_ZOO = [
     "@decorator\ndef g(x: int) -> int:\n    return x", "def g(x: list[int]) -> list[int]:\n    return x", "def g(x: 5) -> int:\n    return 1",
     "def g(x: None) -> None:\n    return x", "def g(x: 'int') -> int:\n    return 1", "def g(x: list[5]) -> int:\n    return 1",
     "def g(x: undefined_name) -> int:\n    return 1", "def g(x: int) -> undefined_name:\n    return 1", "def g(x: int) -> 1/0:\n    return 1",
-    "def g(x: __import__('os').getcwd()) -> int:\n    return 1", "class C:\n    pass", "class C(B, metaclass=M):\n    x: int = 1\n    def m(self):\n        return 1",
+    "def g(x: __import__('os').getcwd()) -> int:\n    return 1",
+    "x: \"print('EXECUTED')\" = 1", "x: list[\"print('EXECUTED')\"] = []", "def g(x: \"print('EXECUTED')\") -> int:\n    return 1",
+    "def g(x: int) -> \"__import__('os').getcwd()\":\n    return 1", "x: \"list[int]\" = []", "x: 'SecretInteger' = x0",
+    "def g(x: 'list[' + 'int]') -> int:\n    return 1", "x: (lambda: int)() = 1", "x: [int][0] = 1", "x: int.__class__ = 1", "class C:\n    pass", "class C(B, metaclass=M):\n    x: int = 1\n    def m(self):\n        return 1",
     "match x0:\n    case 1:\n        pass\n    case [a, b]:\n        pass\n    case {'k': v}:\n        pass\n    case C(x=1) | None:\n        pass\n    case _:\n        pass",
     "type X = int", "x0", "1", "'doc'", "lambda: 1", "print(x0)", "x0.foo()", "x0.append(1)", "l.append()", "l.append(1, 2)", "p0(1)", "x0(1)", "g(1)", "helper(x0)",
     "helper(x0, x0, x0)", "helper(1, 2)", "total([x0])", "twice(2)", "twice(x0)", "undefined(1)", "Party()", "Party(1)", "Party(name=1)", "Party('a', 'b')",
@@ -146,7 +156,17 @@ def corrupt(rng, text):
     lines = text.split("\n")
     i = rng.randrange(len(lines))
     l = lines[i]
-    k = rng.randrange(6)
+    k = rng.randrange(8)
+    if k >= 6:
+        # the same unparseable line twice (typed twice / a stray closing bracket after a legitimate one), possibly equal
+        # to an earlier line that parses fine
+        bad = rng.choice([l + " (", l + " = =", "    )", "    total = a +", l.replace("(", "", 1) if "(" in l else l + " ]"])
+        j = rng.randrange(i, len(lines))
+        lines[i] = bad
+        lines.insert(j + 1, bad)
+        if bad == "    )" and rng.random() < 0.7:
+            lines.insert(i, "    zz = sum(\n        [x0]\n    )")
+        return "\n".join(lines)
     if k == 0 and l:
         j = rng.randrange(len(l))
         l = l[:j] + l[j + 1:]
